@@ -180,7 +180,10 @@ def mk_iter(eng, st, v, mode='ref', ref=None):
             return It('perm', tuple(items), ())
         return it
     if isinstance(v, Lazy):
+        if (elem_ty(v.ty) or '').strip() == 'u8' or 'str' in v.extra: return It('bytes', lazy_str(eng, v), 0)
         return It('lazy', v, 0, mode)
+    if isinstance(v, StrV):
+        return It('bytes', v, 0)
     raise EngineError(f'iterator over {v!r}')
 
 def lazy_item(eng, l, i, mode):
@@ -271,7 +274,7 @@ def pull(eng, st, fr, it, cont):
     if k == 'peek':
         if it.b is not None:
             pk = it.b
-            if pk == 'none': return cont(st, fr, None, It('peek', it.a, 'none'))
+            if isinstance(pk, str): return cont(st, fr, None, It('peek', it.a, 'none'))
             return cont(st, fr, pk, It('peek', it.a, None))
         def c2(s2, f2, item, ni): return cont(s2, f2, item, It('peek', ni, None))
         return pull(eng, st, fr, it.a, c2)
@@ -290,9 +293,7 @@ def call_closure(eng, st, fr, clo, args, after, kdata=None):
         if h:
             r = h(eng, st, fr, c, args, after, kdata)
             if r is not NotImplemented: return r
-        name = eng.resolve(c.name)
-        if name is None: raise Unmodelled('fn item ' + c.name)
-        return eng.push_call(st, fr, name, tuple(args), None, None, after, kdata)
+        return eng.call_by_name(st, fr, c.name, tuple(args), after, kdata)
     if callable(c):     # python-side callback model
         return after(eng, st, fr, kdata, c(eng, st, fr, args))
     raise EngineError(f'call_closure on {c!r}')
@@ -363,7 +364,7 @@ def m_next(ctx):
 def m_peek(ctx):
     r = ctx.args[0]; it = ctx.deref(r); dst, tgt = ctx.dst, ctx.tgt
     if it.b is not None:
-        return ctx.ret(none() if it.b == 'none' else some(Ref(ctx.st.alloc(it.b), ())))
+        return ctx.ret(none() if isinstance(it.b, str) else some(Ref(ctx.st.alloc(it.b), ())))
     def cont(st, fr, item, ni):
         ctx.eng.write_ref(st, r, It('peek', ni, 'none' if item is None else item))
         return _finish(ctx.eng, st, fr, dst, tgt, none() if item is None else some(Ref(st.alloc(item), ())))
@@ -693,3 +694,96 @@ def m_map_retain(ctx):
             return ('forks', [(b, lambda s4, f4: loop(s4, f4, i + 1, kept + ((k, v2),))), (Not(b), lambda s4, f4: loop(s4, f4, i + 1, kept))])
         return call_closure(eng, st, fr, clo, args, after)
     return loop(ctx.st, ctx.fr, 0, ())
+
+# ---------------------------------------------------------------------------- chars of a str (UTF-8 decoding over the byte view)
+
+from .models import byte_at, substr
+
+def utf8_width_at(v, p):
+    b0 = byte_at(v, p)
+    return If(ULT(b0, BitVecVal(0x80, 8)), bv64(1), If(ULT(b0, BitVecVal(0xE0, 8)), bv64(2), If(ULT(b0, BitVecVal(0xF0, 8)), bv64(3), bv64(4))))
+def utf8_decode_at(v, p):
+    """scalar value (BV32) of the char starting at view-relative byte position p (the view is assumed valid UTF-8)"""
+    z = lambda b: z3.ZeroExt(24, b)
+    b0 = z(byte_at(v, p)); b1 = z(byte_at(v, p + 1)); b2 = z(byte_at(v, p + 2)); b3 = z(byte_at(v, p + 3))
+    m = lambda x, k: x & BitVecVal(k, 32)
+    c1 = b0
+    c2 = (m(b0, 0x1F) << 6) | m(b1, 0x3F)
+    c3 = (m(b0, 0x0F) << 12) | (m(b1, 0x3F) << 6) | m(b2, 0x3F)
+    c4 = (m(b0, 0x07) << 18) | (m(b1, 0x3F) << 12) | (m(b2, 0x3F) << 6) | m(b3, 0x3F)
+    return If(ULT(b0, BitVecVal(0x80, 32)), c1, If(ULT(b0, BitVecVal(0xE0, 32)), c2, If(ULT(b0, BitVecVal(0xF0, 32)), c3, c4)))
+def utf8_prev_width(v, p):
+    """width of the char ending at byte position p (p > 0)"""
+    cont = lambda b: (b & BitVecVal(0xC0, 8)) == BitVecVal(0x80, 8)
+    return If(Not(cont(byte_at(v, p - 1))), bv64(1), If(Not(cont(byte_at(v, p - 2))), bv64(2), If(Not(cont(byte_at(v, p - 3))), bv64(3), bv64(4))))
+
+def utf8_valid(v):
+    """exact UTF-8 well-formedness of the bytes of view v (capacity-bounded unrolling of the standard DFA)"""
+    need = BitVecVal(0, 8)      # continuation bytes still expected
+    lo = BitVecVal(0x80, 8); hi = BitVecVal(0xBF, 8)      # allowed range of the next continuation byte
+    okc = BoolVal(True)
+    n = len(v.buf)
+    for k in range(n):
+        kk = bv64(k); act = ULT(kk, v.len); b = byte_at(v, kk)
+        B = lambda x: BitVecVal(x, 8)
+        is_cont_ok = And(UGE(b, lo), ULE(b, hi))
+        start_ok = Or(ULT(b, B(0x80)), And(UGE(b, B(0xC2)), ULE(b, B(0xF4))))
+        step_ok = If(need == B(0), start_ok, is_cont_ok)
+        okc = And(okc, Or(Not(act), step_ok))
+        new_need = If(need == B(0), If(ULT(b, B(0x80)), B(0), If(ULT(b, B(0xE0)), B(1), If(ULT(b, B(0xF0)), B(2), B(3)))), need - B(1))
+        new_lo = If(need == B(0), If(b == B(0xE0), B(0xA0), If(b == B(0xF0), B(0x90), B(0x80))), B(0x80))
+        new_hi = If(need == B(0), If(b == B(0xED), B(0x9F), If(b == B(0xF4), B(0x8F), B(0xBF))), B(0xBF))
+        need = If(act, new_need, need); lo = If(act, new_lo, lo); hi = If(act, new_hi, hi)
+    return simplify(And(okc, need == BitVecVal(0, 8)))
+
+@model(r'^core::str::<impl str>::(char_indices|chars)$')
+def m_chars(ctx):
+    v = as_str(ctx, ctx.args[0])
+    return ctx.ret(It('chars', v, (bv64(0), v.len), ctx.callee.endswith('char_indices')))
+
+def _chars_pull(eng, st, fr, it, cont, back=False):
+    v = it.a; front, bk = it.b; idx = it.c
+    def some(s2, f2):
+        if not back:
+            w = utf8_width_at(v, front); ch = utf8_decode_at(v, front)
+            item = Agg((front, ch)) if idx else ch
+            return cont(s2, f2, item, It('chars', v, (simplify(front + w), bk), idx))
+        w = utf8_prev_width(v, bk); p = simplify(bk - w); ch = utf8_decode_at(v, p)
+        item = Agg((p, ch)) if idx else ch
+        return cont(s2, f2, item, It('chars', v, (front, p), idx))
+    return ('forks', [(front == bk, lambda s2, f2: cont(s2, f2, None, it)), (front != bk, some)])
+
+def _bytes_pull(eng, st, fr, it, cont):
+    v = it.a; p = it.b
+    if p >= len(v.buf): return ('forks', [(UGT(v.len, bv64(p)), ('bound', 'byte slice longer than its capacity')), (ULE(v.len, bv64(p)), lambda s2, f2: cont(s2, f2, None, it))])
+    item = byte_at(v, bv64(p))
+    return ('forks', [(UGT(v.len, bv64(p)), lambda s2, f2: cont(s2, f2, item, It('bytes', v, p + 1))),
+                      (ULE(v.len, bv64(p)), lambda s2, f2: cont(s2, f2, None, it))])
+
+_pull0 = pull
+def pull(eng, st, fr, it, cont):
+    if it.kind == 'chars': return _chars_pull(eng, st, fr, it, cont)
+    if it.kind == 'bytes': return _bytes_pull(eng, st, fr, it, cont)
+    return _pull0(eng, st, fr, it, cont)
+
+@model(r'^<(?:std::str::|core::str::)?(?:CharIndices|Chars)<.*> as DoubleEndedIterator>::next_back$')
+def m_chars_next_back(ctx):
+    r = ctx.args[0]; it = ctx.deref(r); dst, tgt = ctx.dst, ctx.tgt
+    def cont(st, fr, item, ni):
+        ctx.eng.write_ref(st, r, ni)
+        return _finish(ctx.eng, st, fr, dst, tgt, none() if item is None else some(item))
+    return _chars_pull(ctx.eng, ctx.st, ctx.fr, it, cont, back=True)
+
+@model(r'^(?:(?:core::)?char::methods::<impl char>|char)::len_utf8$')
+def m_len_utf8(ctx):
+    c = ctx.term(ctx.args[0], 'char'); B = lambda x: BitVecVal(x, 32)
+    return ctx.ret(If(ULT(c, B(0x80)), bv64(1), If(ULT(c, B(0x800)), bv64(2), If(ULT(c, B(0x10000)), bv64(3), bv64(4)))))
+@model(r'^(?:(?:core::)?char::methods::<impl char>|char)::is_control$')
+def m_is_control(ctx):
+    c = ctx.term(ctx.args[0], 'char'); B = lambda x: BitVecVal(x, 32)
+    return ctx.ret(Or(ULE(c, B(0x1F)), And(UGE(c, B(0x7F)), ULE(c, B(0x9F)))))
+
+@model(r'^<(?:std::option::)?Option<.*> as PartialEq>::(eq|ne)$|^<\(.*\) as PartialEq>::(eq|ne)$|^<&(?:std::option::)?Option<.*> as PartialEq>::(eq|ne)$')
+def m_generic_eq(ctx):
+    e = val_eq(ctx.eng, ctx.st, ctx.args[0], ctx.args[1])
+    return ctx.ret(Not(e) if ctx.callee.endswith('::ne') else e)
